@@ -382,11 +382,6 @@ where
     }
 }
 
-pub fn replay(case: &Value) -> i32 {
-    println!("history: {}", case["history"]);
-    0
-}
-
 pub fn run(tier: Tier) -> i32 {
     let mut rep = Report::new("C12", tier);
     rep.rule = "explicit-state exploration: state = expression reached by parse + up to k transformations from {convert flat<->deep, operate_unary, operate_binary with a pool, subs, partial}; in every state: a parsed FlatEx prints its source text; the printed text parses back (same form) with the same variables and the same value, iterated to the fixpoint of unparse->parse; serde_json round trip of every flat expression through from_str, from_reader and from_value (variable names that need JSON escapes included); data types: symbolic (total Debug/FromStr round trip) and f64 restricted to plain-decimal printed literals; distinct = unique structural dumps; non-trivial = at least one transformation".into();
